@@ -1304,12 +1304,26 @@ int32_t tls13ParsePreSharedKey(ssl_t *ssl,
         psk = ssl->sec.tls13SessionPskList;
         while (psk)
         {
+            /* selected_identity counts the identities that were OFFERED:
+               tls13WritePreSharedKey leaves out the PSKs whose hash no
+               offered suite covers. */
+            if ((tls13GetPskHmacAlg(psk) == HMAC_SHA384 &&
+                    !ssl->tls13CHContainsSha384Suite) ||
+                (tls13GetPskHmacAlg(psk) != HMAC_SHA384 &&
+                    !ssl->tls13CHContainsSha256Suite))
+            {
+                psk = psk->next;
+                continue;
+            }
             if (ix == selectedIdentity)
             {
                 foundPsk = PS_TRUE;
                 ssl->sec.tls13ChosenPsk = psk;
                 ssl->sec.tls13UsingPsk = PS_TRUE;
                 ssl->sec.tls13SelectedIdentityIndex = selectedIdentity;
+                /* The binders left the early secret of the LAST offered
+                   PSK behind: derive it again from the selected one. */
+                ssl->sec.tls13KsState.generateEarlySecretDone = 0;
             }
             psk = psk->next;
             ix++;
